@@ -273,6 +273,23 @@ class UnitDomain(Domain):
             tags = [self._deep(it, a, st) for a in args]
             self.sinks.append((func, node, tags, [fr.func.qualname for fr in it.stack]))
             return V(PLAIN)
+        if nm in ("json.dump", "json.dumps") and args:
+            # the object handed to the JSON encoder is what gets written
+            leaves = []
+
+            def walk(v, depth):
+                o = it.obj(st, v)
+                if o is not None and o.kind in ("dict", "unknown") and depth < 6:
+                    for sv in o.slots.values():
+                        walk(sv, depth + 1)
+                    if o.elem is not None:
+                        walk(o.elem, depth + 1)
+                else:
+                    leaves.append(self._deep(it, v, st))
+
+            walk(args[0], 0)
+            self.sinks.append((func, node, leaves, [fr.func.qualname for fr in it.stack]))
+            return V(PLAIN)
         if nm in FRESH_EXTERNALS:
             return it.new(st, "array", node, tag=BOT)
         if nm in ("numpy.dot", "numpy.matmul", "numpy.einsum", "numpy.multiply", "numpy.outer", "numpy.inner", "numpy.tensordot", "numpy.cross"):
